@@ -27,7 +27,8 @@ ASSUMPTIONS = [
     'POSIX file-system semantics are those of lean/LA/Model/FS.lean (tree of directories, inode table, kernel path walk); '
     'validated on every run by comparing the model tree with the real scratch tree after each sequence',
     'the process is privileged (harness runs as root): permission bits never make a system call fail',
-    'cleaned pathnames are shorter than PATH_MAX (edit_deep_directories is not modelled)',
+    'extract_confined covers entry pathnames shorter than PATH_MAX; beyond it edit_deep_directories is modelled (editLoop, chdir/fchdir, '
+    'PATH_MAX in every pathname call), compared with the implementation by the xtrdeep engine, and umask_cwd_restored / extract_cwd_umask are proved for all lengths',
     'no concurrent modification of the target while extracting (TOCTOU races are outside the property as stated in DESIGN.md)',
     'entry modes carry no set-id/sticky bits; OWNER, ACL, XATTR, FFLAGS, MAC_METADATA, SPARSE, NO_OVERWRITE_NEWER, NO_AUTODIR are not in the option sets',
     'archive_write_data is called once with exactly the declared size',
@@ -248,4 +249,16 @@ class XtrTar(Xtr):
             yield Case(f'tar{i}', ['mode tar'] + G.sequence(rng, tier))
 
 
-ENGINES = [PathClean(), Xtr(), XtrTar()]
+class XtrDeep(Xtr):
+    """Pathnames from PATH_MAX to 3*PATH_MAX (edit_deep_directories chdir()s into intermediate directories)."""
+    name = 'xtrdeep'
+    harness = 'xtr'
+    DEEPMODE = 'deep'     # 'deepmon' = monitor only (predicate on the implementation's lines)
+
+    def gen(self, rng, tier):
+        n = 40 if tier == 'quick' else 600
+        for i in range(n):
+            yield Case(f'deep{i}', ['mode ' + self.DEEPMODE] + G.deep_sequence(rng))
+
+
+ENGINES = [PathClean(), Xtr(), XtrTar(), XtrDeep()]
